@@ -313,7 +313,7 @@ def _terminates(body: list[ast.stmt]) -> bool:
     return False
 
 
-def guards(node: ast.AST, stop: typing.Optional[ast.AST] = None) -> list[tuple[ast.AST, bool]]:
+def guards(node: ast.AST, stop: typing.Optional[ast.AST] = None, siblings: bool = True) -> list[tuple[ast.AST, bool]]:
     """Conditions known to hold when ``node`` executes: enclosing ``if``/``while`` arms (test, polarity), conditional
     expressions, and earlier sibling early-exits ``if c: return/raise/continue`` (=> not c).  ``stop``: outermost node
     (usually the function) at which the walk ends."""
@@ -343,7 +343,7 @@ def guards(node: ast.AST, stop: typing.Optional[ast.AST] = None) -> list[tuple[a
                     if cur is not cond and not any(cur is x for x in ast.walk(gen)):
                         out.append((cond, True))
         # earlier siblings that exit early
-        for field in ('body', 'orelse', 'finalbody'):
+        for field in ('body', 'orelse', 'finalbody') if siblings else ():
             seq = getattr(par, field, None)
             if isinstance(seq, list) and cur in seq:
                 for prev in seq[: seq.index(cur)]:
